@@ -14,13 +14,16 @@ var hostile = []string{
 	"NOASSERTION", "NONE", " lead", "trail ", "Person: x", "Organization: y (z)", "x (y)", "(", ")", "null",
 	"SPDXRef-a", "DocumentRef-x:SPDXRef-y", "é ", "\U0001F600", "\ufeffbom", "á", "DOCUMENT", "true", "0",
 	"protobom-auto--000000001", "a:b", "a+b", "Tool: t", " ", "日本語", "x--y", "cpe:2.3:a:b", "pkg:npm/a@1",
+	// JSON carries these without escapes; Go's encoder writes them escaped by default
+	"AT&T", "Jane Doe <jane@example.com>", "a<b", "a>b", "&amp;", "line\u2028sep", "para\u2029sep", "<", "&",
 }
 
 var plainTables = []*unicode.RangeTable{unicode.L, unicode.N, unicode.P, unicode.S, unicode.Zs, unicode.M}
 
-// JSONEscaped reports whether Go's encoding/json (default HTML-escaping mode) writes r with an escape.
+// JSONEscaped reports whether JSON (RFC 8259) requires r to be written with an escape. (Go's encoder additionally
+// escapes < > & U+2028 U+2029 by default; those are text "JSON carries without escapes" all the same.)
 func JSONEscaped(r rune) bool {
-	return r < 0x20 || r == '"' || r == '\\' || r == '<' || r == '>' || r == '&' || r == 0x2028 || r == 0x2029 || r == utf8.RuneError
+	return r < 0x20 || r == '"' || r == '\\' || r == utf8.RuneError
 }
 
 // IsPlain reports whether s is valid UTF-8 that JSON carries without escapes.
@@ -40,7 +43,7 @@ func IsPlain(s string) bool {
 func TextPlain() *rapid.Generator[string] {
 	return rapid.OneOf(
 		rapid.Just(""),
-		rapid.StringMatching(`[a-zA-Z0-9 .,:;/@()\[\]{}'+=_#%!?*-]{1,12}`),
+		rapid.StringMatching(`[a-zA-Z0-9 .,:;/@()\[\]{}'+=_#%!?*<>&-]{1,12}`),
 		rapid.StringOfN(rapid.RuneFrom(nil, plainTables...), 1, 8, -1).Filter(IsPlain),
 		rapid.SampledFrom(hostile),
 	)
